@@ -6,7 +6,7 @@ cd /verif
 OUT=/verif/seeded/MATRIX.txt
 : > "$OUT"
 git -C /repo diff --quiet || { echo "/repo is dirty"; exit 2; }
-for d in seeded/C*-[AB]; do
+for d in seeded/C*-[${SEED_SET:-A-D}]; do
   s=$(basename $d); pid=${s%-*}
   [ -f $d/meta.json ] || continue
   grep -q '"confirmed": true' $d/meta.json || { echo "$s unconfirmed" >> "$OUT"; continue; }
